@@ -55,7 +55,10 @@ def main():
 
     proof_problems = []
     # 1. proofs
-    ok, coqlog = core.build_coq()
+    ok_all, coqlog = core.build_coq()
+    model_ok = core.coq_built("theories/Run")
+    # a broken file elsewhere in the development is this property's problem only if its theorems depend on it
+    ok = core.coq_built("props/" + prop)
     if not ok:
         proof_problems.append("coq build failed: " + coqlog[-1500:])
     bad = core.coq_forbidden_scan()
@@ -64,6 +67,10 @@ def main():
     if ok:
         audit = core.coq_audit(prop)
         proof_problems += audit["problems"]
+    else:
+        # count the obligations even when they do not compile
+        a0 = core.coq_audit(prop)
+        audit = dict(obligations=a0["obligations"], discharged=0, theorems=a0["theorems"], problems=[])
     if tier == "thorough" and ok and not os.environ.get("VERIF_SKIP_COQCHK"):
         r = core.run(["coqchk", "-silent", "-o", "-Q", "theories", "XcpModel", "-Q", "proofs", "XcpProofs",
                       "-Q", "props", "XcpProps", "XcpProps." + prop], cwd=core.COQ, timeout=3000)
@@ -81,7 +88,7 @@ def main():
     try:
         ctx.bins = core.build_rust()
         ctx.sup = None   # modules that need the supervisor call core.build_sup()
-        ctx.model_ok = ok
+        ctx.model_ok = model_ok
         with core.Work(prop) as work:
             ctx.work = work
             mod.run(ctx, out)
